@@ -96,6 +96,11 @@ pub fn run(p: &Params, rep: &mut Report) {
         check_order(rep, &a, &b, seed);
         check_order(rep, &b, &c, seed);
         check_order(rep, &a, &c, seed);
+        if rep.xchecks.len() < 20 {
+            use crate::oracle::smtlib::lit;
+            rep.xcheck(|| format!("(= (str.< {} {}) {})", lit(&a), lit(&b), str_lt(&s(&a), &s(&b))));
+            rep.xcheck(|| format!("(= (str.<= {} {}) {})", lit(&a), lit(&b), str_le(&s(&a), &s(&b))));
+        }
         rep.eval(Some(&format!("t{}|{}|{}", show_str(&a), show_str(&b), show_str(&c))));
         rep.sample(|| format!("order triple {} {} {}", show_str(&a), show_str(&b), show_str(&c)));
     }
@@ -137,6 +142,17 @@ pub fn run(p: &Params, rep: &mut Report) {
             w[pos] = *rng.pick(&[0x2F, 0x3A, 0x61, 0x2D, 0x2B, 0x20, 0x660, 0xFF10, 0x2FFFF]);
         }
         check_to_int(rep, &w, seed);
+        if w.len() <= 9 && rep.xchecks.len() < 50 {
+            use crate::oracle::smtlib::{int, lit};
+            let got = str_to_int(&s(&w));
+            rep.xcheck(|| format!("(= (str.to_int {}) {})", lit(&w), int(got as i64)));
+            let x = (got as i64) - 3;
+            rep.xcheck(|| format!("(= (str.from_int {}) {})", int(x), lit(&v(&str_from_int(x as i32)))));
+            let code = (w[0] as i64) * 1000 - 40000;
+            rep.xcheck(|| format!("(= (str.from_code {}) {})", int(code), lit(&v(&str_from_code(code as i32)))));
+            rep.xcheck(|| format!("(= (str.to_code {}) {})", lit(&w[..1]), int(str_to_code(&s(&w[..1])) as i64)));
+            rep.xcheck(|| format!("(= (str.is_digit {}) {})", lit(&w[..1]), str_is_digit(&s(&w[..1]))));
+        }
         rep.eval(Some(&format!("r{}", show_str(&w))));
         rep.sample(|| format!("to_int {}", show_str(&w)));
     }
